@@ -621,15 +621,38 @@ def gen_timing(src: Path):
     default_timeout_ms = None
     try:
         sm = ast.parse((src / "protocol/messages/send_message.py").read_text())
+        mconsts = {}
+        for n in sm.body:  # module-level numeric constants (a default may name one)
+            if isinstance(n, (ast.Assign, ast.AnnAssign)):
+                tgt = n.targets[0] if isinstance(n, ast.Assign) and len(n.targets) == 1 else getattr(n, "target", None)
+                if isinstance(tgt, ast.Name) and n.value is not None:
+                    try:
+                        v = ast.literal_eval(n.value)
+                        if isinstance(v, (int, float)) and not isinstance(v, bool):
+                            mconsts[tgt.id] = v
+                    except Exception:
+                        pass
+
+        def num(d):
+            if isinstance(d, ast.Name) and d.id in mconsts:
+                return float(mconsts[d.id])
+            return float(ast.literal_eval(d))
         f = _find_func(sm, "_await_response")
         args = f.args.args
         for a, d in zip(args[len(args) - len(f.args.defaults):], f.args.defaults):
             if a.arg == "sub_timeout":
-                sub_ms = int(round(float(ast.literal_eval(d)) * 1000))
+                sub_ms = int(round(num(d) * 1000))
+        for a, d in zip(f.args.kwonlyargs, f.args.kw_defaults):
+            if a.arg == "sub_timeout" and d is not None:
+                sub_ms = int(round(num(d) * 1000))
         g = _find_func(sm, "send_message")
         for a, d in zip(g.args.kwonlyargs, g.args.kw_defaults):
             if a.arg == "timeout" and d is not None:
-                default_timeout_ms = int(round(float(ast.literal_eval(d)) * 1000))
+                default_timeout_ms = int(round(num(d) * 1000))
+        gargs = g.args.args
+        for a, d in zip(gargs[len(gargs) - len(g.args.defaults):], g.args.defaults):
+            if a.arg == "timeout":
+                default_timeout_ms = int(round(num(d) * 1000))
     except Exception as ex:  # noqa
         report["untranslatable"].append(f"send_message.py: {ex}")
     if sub_ms is None or sub_ms <= 0:
